@@ -446,6 +446,11 @@ def all_cases(tier: str):
             yield {"c": "array", "f": f, "x": xs}
         for ys in ([], [1], ["a", None]):
             yield {"c": "array", "f": "concat", "x": xs, "arg": ys}
+    # uniq compares values, not their printed form: 1 and "1" are different, two hashes with the same pairs in a
+    # different order are the same (no int/float/bool look-alikes here: whether 1 and 1.0 are duplicates is left open)
+    uniq_elems = [1, "1", "a", 2, "2", None, {"k": 1, "j": 2}, {"j": 2, "k": 1}, "A", "a "]
+    for xs in lists(uniq_elems, 3):
+        yield {"c": "array", "f": "uniq", "x": xs}
     for xs in lists(ints3, ll):
         yield {"c": "array", "f": "sort", "x": xs}
     for xs in lists(strs3, ll):
